@@ -122,7 +122,7 @@ Proof. exact commutation_rules_fixed_fredkin. Qed.
 (* ---- H1 / H2 HOLD for the library's real gate matrices (Gen.Gates dispatch + class_mat, regenerated from operations/gates.py and
         gateclass.py on every run), embedded by Found.Base.app on the qubits controls ++ targets, in every phase ring R
         and for all parameter values (env maps the reduced argument list of a gate to arbitrary parameter atoms), with the
-        library's commutation_rules (fixes/C05-commutation-rules.diff applied): so sched_sem is a statement about actual
+        library's commutation_rules (fixes/C05-commutation-rules.diff and C05-role-order.diff applied): so sched_sem is a statement about actual
         unitaries acting on every register.  An instruction that is not well formed for its name (unknown name, wrong
         number of controls / targets, repeated qubit, a gate with >= 2 parameters carrying another number of arguments)
         has no unitary and acts as the identity.  Proofs/SchedReal.v: 70 local symbolic commutation identities with
@@ -190,8 +190,13 @@ Proof. repeat split. Qed.
 Example c05_example_wf : forallb (fun g => match wf_instr g with Some _ => true | None => false end) c05_example = true.
 Proof. reflexivity. Qed.
 
-(* Instruction.__init__ SORTS the target and the control list of its gate; the model's instr carries the sorted lists.
-   This does not change the unitary: every two-target / two-control matrix of dispatch is invariant under the exchange *)
+(* The rule (scheduler._controls_and_targets, fixes/C05-role-order.diff) and the model's instr use the qubits the MATRIX
+   treats as controls / targets (the first nc of controls ++ targets are the controls: TOFFOLI(targets=[0,1,2]) has
+   controls [0;1] and target [2]), SORTED for every library name except RZX; RZX and user-defined names keep the listed
+   order.  Sorting does not change the unitary: every two-target / two-control matrix is invariant under the exchange,
+   except RZX (whose lists are therefore not sorted). *)
+Theorem rule_names_have_arity : forall n, In n rule_names -> exists ar, SchedReal.arity n = Some ar.
+Proof. exact SchedReal.rule_names_covered. Qed.
 Theorem act_real_target_order : forall (R : PhaseRing) (env : list Q -> atoms R) n c t1 t2 args d st, n <> "RZX"%string ->
   act_real R env (mkInstr n [t1; t2] c args d) st = act_real R env (mkInstr n [t2; t1] c args d) st.
 Proof. exact SchedReal.act_real_target_order. Qed.
@@ -206,3 +211,13 @@ Example guards_needed :
   comm_check 1 (msubst [Var 0; Var 1] fn_qrot) [0] (msubst [Var 0; Var 1] fn_qrot) [0] = false /\
   comm_check 4 fn_fredkin [0; 1; 2] fn_fredkin [0; 2; 3] = false.
 Proof. split; vm_compute; reflexivity. Qed.
+
+(* the targets-only forms: Instruction(TOFFOLI(targets=[0,1,2])) is (controls [0;1], target [2]) in the model, well formed,
+   and the fixed rule does not declare TOFFOLI(0,1 -> 2) and TOFFOLI(1,2 -> 0) commuting; the rule that compared the
+   SORTED target lists [0;1;2] = [0;1;2] did, and the symbolic commutation test of the two gates fails *)
+Example toffoli_targets_only :
+  wf_instr (mkInstr "TOFFOLI" [2] [0; 1] [] 1%Q) = Some fn_toffoli /\
+  commutation_rules (mkInstr "TOFFOLI" [2] [0; 1] [] 1%Q) (mkInstr "TOFFOLI" [0] [1; 2] [] 1%Q) = false /\
+  commutation_rules_orig (mkInstr "TOFFOLI" [0; 1; 2] [] [] 1%Q) (mkInstr "TOFFOLI" [0; 1; 2] [] [] 1%Q) = true /\
+  comm_check 3 fn_toffoli [0; 1; 2] fn_toffoli [1; 2; 0] = false.
+Proof. repeat split; vm_compute; reflexivity. Qed.
